@@ -534,10 +534,12 @@ fn process_constructor(
             .insert(constructor_id, constructor.lints.clone());
     }
 
+    // If the lifecycle has been overridden at registration time, the error handler
+    // must follow suit: there will be no annotation-driven default to fall back on.
     process_component_specific_error_handler(
         aux,
         &constructor.error_handler,
-        None,
+        constructor.lifecycle,
         current_scope_id,
         constructor_id,
     );
